@@ -359,6 +359,10 @@ def run(ctx):
         "several operands), 2..15 rows, all row types of the core vocabulary, joins, go_to cycles, no_op forwarding and no_op "
         "decisions, anonymous rows, short and long edge headers, texts with separators/newlines/non-ASCII; each compiled by "
         "rpft.converters.create_flows from CSV files and compared with RowSem by the Coq-verified checker. "
+        "Plus (strengthening after wave 3): sheets whose words come from a small per-sheet vocabulary of names the tool invents or reserves "
+        "(Other, No Response, Bucket <n>, Success/Failure, Complete/Expired, start, None, ... in every capitalisation; as condition values, explicit "
+        "category names, bucket / group names, row ids, result names) and star sheets (one decision, 3-9 edges, one or two such words), every "
+        "prefix of a star sheet judged; these also compared with the compiler model, category names included. "
         "non-trivial = distinct (row type, edge count) profile with >= 3 rows and at least one conditional edge")
     ctx.v.assumptions += [
         "expected action payloads and initial decisions per row type (harness/rowref.py) are written from the RapidPro flow spec",
